@@ -411,6 +411,37 @@ impl serde::Serialize for Shown {
     fn serialize<S: serde::Serializer>(&self, s: S) -> Result<S::Ok, S::Error> { s.collect_str(&self.0) }
 }
 
+struct Odd(u8, bool);
+impl serde::Serialize for Odd {
+    fn serialize<S: serde::Serializer>(&self, s: S) -> Result<S::Ok, S::Error> {
+        if self.1 { s.collect_map((0 .. self.0).filter(|x| x % 2 == 1).map(|x| (x, x as u16 * x as u16))) }
+        else { s.collect_seq((0 .. self.0).filter(|x| x % 2 == 1)) }
+    }
+}
+
+/// `sdereuse <n> <hex bad> <hex good>`: ONE `Deserializer` over bad ++ good: `(u8, (u8,))` is asked for at position 0 `n` times (the
+/// answer does not matter), then at the start of `good`: `<last answer at 0> | <answer at good>`.
+fn sdereuse(w: &[&str]) -> String {
+    use serde::Deserialize;
+    if w.len() != 3 { return "bad-op".into() }
+    let n = match w[0].parse::<usize>() { Ok(n) if n <= 10000 => n, _ => return "bad-op".into() };
+    let (bad, good) = match (unhex(w[1]), unhex(w[2])) { (Some(a), Some(b)) => (a, b), _ => return "bad-op".into() };
+    let mut input = bad.clone(); input.extend_from_slice(&good);
+    let mut de = minicbor_serde::Deserializer::new(&input);
+    let show = |r: Result<(u8, (u8,)), minicbor_serde::error::DecodeError>, pos: usize| match r {
+        Ok(v) => format!("ok [{},[{}]] {}", v.0, (v.1).0, pos), Err(e) => format!("err {} {}", sclass(&e.to_string()), pos) };
+    let mut last = "-".to_string();
+    for _ in 0 .. n {
+        de.decoder_mut().set_position(0);
+        let r = <(u8, (u8,))>::deserialize(&mut de);
+        last = show(r, de.decoder().position());
+    }
+    de.decoder_mut().set_position(bad.len());
+    let r = <(u8, (u8,))>::deserialize(&mut de);
+    let g = show(r, de.decoder().position());
+    format!("{} | {}", last, g)
+}
+
 /// `sser <type> <args…>`: the serde bridge's Serializer into a fixed buffer.
 fn sser(w: &[&str]) -> String {
     use serde::Serialize;
@@ -431,6 +462,10 @@ fn sser(w: &[&str]) -> String {
         "tup2" => { let v = num!(u16); ((v >> 8) as u8, v as u8).serialize(&mut ser).map(|_| ()) }
         "arr2" => { let v = num!(u16); [(v >> 8) as u8, v as u8].serialize(&mut ser).map(|_| ()) }
         "f32" => match u32::from_str_radix(a, 16) { Ok(b) => f32::from_bits(b).serialize(&mut ser).map(|_| ()), Err(_) => return "bad-op".into() },
+        // collect_seq / collect_map over iterators whose size hint is not tight (every odd number below n / its square)
+        "cseq" => { let n = num!(u8); Odd(n, false).serialize(&mut ser).map(|_| ()) }
+        "cmap" => { let n = num!(u8); Odd(n, true).serialize(&mut ser).map(|_| ()) }
+        "tup_cseq" => { let n = num!(u8); (Odd(n, false), 7u8).serialize(&mut ser).map(|_| ()) }
         _ => return "bad-op".into()
     };
     match r {
@@ -475,6 +510,7 @@ fn dispatch(w: &[&str]) -> String {
         "sde" => sde(&w[1..]),
         "tencc" => tencc(&w[1..]),
         "sser" => sser(&w[1..]),
+        "sdereuse" => sdereuse(&w[1..]),
         "enc" => enc(&w[1..]),
         "encseq" => encseq(&w[1..]),
         "dec" => dec(&w[1..]),
